@@ -297,6 +297,99 @@ where
     None
 }
 
+// ------------------------------------------------ in-place ops against independent arithmetic
+/// Every integer sample format as 2-channel frames: add_in_place and add_in_place_with_amp_per_channel
+/// over every pair (destination value, added amplitude) from two structured sets, compared with
+/// independent arithmetic (add in the Signed companion, scale in its Float companion with correctly
+/// rounded conversions; common::refmodel) instead of the Frame operation itself. Pairs whose
+/// mathematical result leaves the format are outside the law's domain and are not formed.
+const ABS_FORMATS: [&str; 12] = ["i8", "u8", "i16", "u16", "I24", "U24", "i32", "u32", "I48", "U48", "i64", "u64"];
+fn abs_inplace_case(fmt_ix: usize) -> Bad {
+    use common::refmodel::{amp, from_amp, in_range, sample_add, sample_mul, Fmt};
+    macro_rules! run {
+        ($S:ty, $SG:ty, $FL:ty, $fmt:expr, $mk:expr, $raw:expr, $mkg:expr) => {{
+            let fmt: Fmt = $fmt;
+            let sg = fmt.signed_companion();
+            let mk = $mk;
+            let raw = $raw;
+            let mkg = $mkg;
+            let bits = fmt.bits();
+            let h = 1i128 << (bits - 1);
+            let hs = 1i128 << (sg.bits() - 1);
+            // destination: signed amplitudes around 0, the byte / 16-bit carries and the extremes
+            let dest: Vec<i128> = [0, 1, -1, 255, -255, 256, -256, 257, -257, 65_535, -65_537, 100_003, -100_003, h - 1, -h, h - 2, -h + 1, h / 2, -h / 2 - 1]
+                .into_iter()
+                .filter(|a: &i128| *a >= -h && *a < h)
+                .collect();
+            // added amplitude, in the Signed companion's units
+            let add: Vec<i128> = [0, 1, -1, 3, -255, 257, -256, 768, -769, 65_537, -65_535, hs / 4 + 1, -hs / 4 - 1]
+                .into_iter()
+                .filter(|a: &i128| *a >= -hs && *a < hs)
+                .collect();
+            for (g0, g1) in [(1.0f64, 1.0f64), (0.5, -1.0), (0.25, 0.0), (-0.5, 0.75)] {
+                let plain = g0 == 1.0 && g1 == 1.0;
+                let mut a: Vec<[$S; 2]> = Vec::new();
+                let mut b: Vec<[$SG; 2]> = Vec::new();
+                let mut exp: Vec<[i128; 2]> = Vec::new();
+                for &x in &dest {
+                    for &y in &add {
+                        // both channels carry the pair, channel 1 with the roles' signs flipped where representable
+                        let (x1, y1) = (if -x < h && -x >= -h { -x } else { x }, if -y < hs && -y >= -hs { -y } else { y });
+                        let e = |x: i128, y: i128, g: f64| -> Option<i128> {
+                            let ys = if plain { Some(y) } else { sample_mul(sg, y, g) }?;
+                            sample_add(fmt, from_amp(fmt, x), ys)
+                        };
+                        if let (Some(e0), Some(e1)) = (e(x, y, g0), e(x1, y1, g1)) {
+                            a.push([mk(from_amp(fmt, x)), mk(from_amp(fmt, x1))]);
+                            b.push([mkg(y), mkg(y1)]);
+                            exp.push([e0, e1]);
+                        }
+                    }
+                }
+                let before = a.clone();
+                let r = if plain { catch(|| dasp_slice::add_in_place(&mut a, &b)) } else { catch(|| dasp_slice::add_in_place_with_amp_per_channel(&mut a, &b, [g0 as $FL, g1 as $FL])) };
+                let op = if plain { "add_in_place".to_string() } else { format!("add_in_place_with_amp_per_channel(gain [{g0}, {g1}])") };
+                if let Err(p) = r {
+                    return bad("inplace.abs", format!("[{};2] {op} over {} in-range pairs panicked: {p}", ABS_FORMATS[fmt_ix], exp.len()));
+                }
+                for i in 0..a.len() {
+                    for c in 0..2 {
+                        let got: i128 = raw(a[i][c]);
+                        if got != exp[i][c] || !in_range(fmt, got) {
+                            return bad(
+                                "inplace.abs",
+                                format!(
+                                    "[{};2] {op}: destination amplitude {} plus added amplitude {} (Signed companion units) gave amplitude {}, independent arithmetic gives {}",
+                                    ABS_FORMATS[fmt_ix],
+                                    amp(fmt, raw(before[i][c])),
+                                    b[i][c].to_sample::<f64>() * hs as f64,
+                                    amp(fmt, got),
+                                    amp(fmt, exp[i][c])
+                                ),
+                            );
+                        }
+                    }
+                }
+            }
+            None
+        }};
+    }
+    match fmt_ix {
+        0 => run!(i8, i8, f32, Fmt::I8, |v: i128| v as i8, |s: i8| s as i128, |v: i128| v as i8),
+        1 => run!(u8, i8, f32, Fmt::U8, |v: i128| v as u8, |s: u8| s as i128, |v: i128| v as i8),
+        2 => run!(i16, i16, f32, Fmt::I16, |v: i128| v as i16, |s: i16| s as i128, |v: i128| v as i16),
+        3 => run!(u16, i16, f32, Fmt::U16, |v: i128| v as u16, |s: u16| s as i128, |v: i128| v as i16),
+        4 => run!(I24, I24, f32, Fmt::I24, |v: i128| I24::new(v as i32).unwrap(), |s: I24| s.inner() as i128, |v: i128| I24::new(v as i32).unwrap()),
+        5 => run!(U24, i32, f32, Fmt::U24, |v: i128| U24::new(v as i32).unwrap(), |s: U24| s.inner() as i128, |v: i128| v as i32),
+        6 => run!(i32, i32, f32, Fmt::I32, |v: i128| v as i32, |s: i32| s as i128, |v: i128| v as i32),
+        7 => run!(u32, i32, f32, Fmt::U32, |v: i128| v as u32, |s: u32| s as i128, |v: i128| v as i32),
+        8 => run!(I48, I48, f64, Fmt::I48, |v: i128| I48::new(v as i64).unwrap(), |s: I48| s.inner() as i128, |v: i128| I48::new(v as i64).unwrap()),
+        9 => run!(U48, i64, f64, Fmt::U48, |v: i128| U48::new(v as i64).unwrap(), |s: U48| s.inner() as i128, |v: i128| v as i64),
+        10 => run!(i64, i64, f64, Fmt::I64, |v: i128| v as i64, |s: i64| s as i128, |v: i128| v as i64),
+        _ => run!(u64, i64, f64, Fmt::U64, |v: i128| v as u64, |s: u64| s as i128, |v: i128| v as i64),
+    }
+}
+
 fn inplace_dispatch(name: &str, la: usize, lb: usize) -> Bad {
     match name {
         "[f32;2]" => inplace_case::<[f32; 2], [f32; 2], [f32; 2]>(name, la, lb, |i| [i as f32 * 0.125 - 0.5, 0.25 - i as f32 * 0.0625], |i| [0.0625 * i as f32, -0.125], [0.5, -1.0]),
@@ -318,7 +411,9 @@ fn main() {
     let table = build_table();
     if let Some(v) = ctx.replay_case() {
         let _guard_scope = guard::scoped(&v.to_string());
-        let r = if v["sys"] == "inplace" {
+        let r = if v["sys"] == "inplace_abs" {
+            abs_inplace_case(v["fmt_ix"].as_u64().unwrap_or(0) as usize)
+        } else if v["sys"] == "inplace" {
             inplace_dispatch(v["frame"].as_str().unwrap_or(""), v["la"].as_u64().unwrap_or(0) as usize, v["lb"].as_u64().unwrap_or(0) as usize)
         } else {
             let fmt = v["fmt"].as_str().unwrap_or("");
@@ -368,6 +463,17 @@ fn main() {
             }
         }
     }
+    for fmt_ix in 0..ABS_FORMATS.len() {
+        let case = json!({"sys": "inplace_abs", "fmt_ix": fmt_ix, "format": ABS_FORMATS[fmt_ix]});
+        let _guard_scope = guard::scoped(&case.to_string());
+        evals += 1;
+        match catch(|| abs_inplace_case(fmt_ix)) {
+            Ok(None) => ctx.observe(common::fnv_str(&format!("ipabs{fmt_ix}"))),
+            Ok(Some((k, m))) => ctx.violation(&k, case, m, Some(&|| abs_inplace_case(fmt_ix).map(|x| x.1))),
+            Err(p) => ctx.violation("inplace.panic", case, format!("[{};2] absolute in-place check: unexpected panic: {p}", ABS_FORMATS[fmt_ix]), None),
+        }
+    }
+    ctx.rule("in-place ops against independent arithmetic: all 12 integer formats as 2-channel frames, add_in_place and add_in_place_with_amp_per_channel (4 gain frames) over every pair of a destination amplitude (0, +-1, the byte / 16-bit carries +-255..257, 65535, 100003, both extremes and their neighbours, half scale) and an added amplitude in the Signed companion's units (0, +-1, 3, -255, 257, -256, 768, -769, ...), result == add in the Signed companion of the value scaled in the Float companion with correctly rounded conversions (common::refmodel), pairs whose mathematical result leaves the format excluded");
     ctx.add_evals(evals);
     ctx.set("exhaustive", json!(true));
     ctx.set("exhaustive_scope", json!("N 1..=32 complete, 14 formats complete, L bounded by 3N+2; in-place length pairs bounded by 5"));
